@@ -27,6 +27,8 @@ type chunkReader struct {
 	reads       int
 	short       int // reads that returned fewer bytes than asked while more were available
 	eofWithData int
+	idle        bool
+	zeroReads   int
 }
 
 func newChunkReader(data []byte, mode int, seed uint64) *chunkReader {
@@ -46,6 +48,17 @@ func (c *chunkReader) Read(p []byte) (int, error) {
 		want = rem
 	}
 	n := want
+	if c.mode == 10 {
+		// a reader that now and then reports "nothing happened" (0, nil), which the
+		// io.Reader contract allows, and otherwise delivers seeded chunk sizes
+		if !c.idle && c.rng.Pct(30) {
+			c.idle = true
+			c.zeroReads++
+			return 0, nil
+		}
+		c.idle = false
+		n = 1 + c.rng.Intn(want)
+	}
 	switch c.mode {
 	case 1:
 		n = 1
@@ -81,6 +94,9 @@ type failWriter struct {
 	buf     bytes.Buffer
 	limit   int
 	partial bool
+	// transient: only the one write that crosses the limit fails; the sink works
+	// again afterwards (an error that is not looked at is then not repeated)
+	transient bool
 	failed  bool
 	writes  int
 }
@@ -95,6 +111,10 @@ func (f *failWriter) Write(p []byte) (int, error) {
 		return f.buf.Write(p)
 	}
 	f.failed = true
+	if f.transient {
+		f.limit = -1
+		return 0, errDisk
+	}
 	if f.partial && room > 0 {
 		f.buf.Write(p[:room])
 		return room, errDisk
